@@ -261,13 +261,128 @@ def check_form(item, part, envs_by_type_r, envs_by_type_c):
     part.sample({"form": key0}, limit=2)
 
 
+# ---------------------------------------------------------------------------------------------------
+# MixedFunctionSpace (argument parts)
+# ---------------------------------------------------------------------------------------------------
+
+
+class PartsWorld:
+    def __init__(self):
+        m = EV.mesh("triangle")
+        self.mesh = m
+        self.V0 = ufl.FunctionSpace(m, E.P("triangle", 1))
+        self.V1 = ufl.FunctionSpace(m, E.P("triangle", 2))
+        self.Vm = ufl.MixedFunctionSpace(self.V0, self.V1)
+        self.us = list(ufl.TrialFunctions(self.Vm))
+        self.vs = list(ufl.TestFunctions(self.Vm))
+        self.cs = [ufl.Coefficient(self.V0), ufl.Coefficient(self.V1)]
+        self.f = ufl.Coefficient(ufl.FunctionSpace(m, E.P("triangle", 2)))
+
+
+def parts_items():
+    """Forms on a two-part MixedFunctionSpace: every non-empty subset of {B_ab} (<= 2 terms) optionally plus linear terms."""
+    B = [("B", a, b, how) for a in (0, 1) for b in (0, 1) for how in ("mass", "grad")]
+    Lt = [("L", None, b, "mass") for b in (0, 1)]
+    items = []
+    for t in B:
+        items.append(("parts", (t,)))
+    for t1, t2 in itertools.combinations(B, 2):
+        items.append(("parts", (t1, t2)))
+    for t in B:
+        for l in Lt:
+            items.append(("parts", (t, l)))
+    for l in Lt:
+        items.append(("parts", (l,)))
+    return items
+
+
+def check_parts(item, part, ebt):
+    _, spec = item
+    W = PartsWorld()
+    key0 = "parts:" + "+".join(f"{k}{a if a is not None else ''}{b}{how}" for k, a, b, how in spec)
+    F = None
+    for k, a, b, how in spec:
+        if k == "B":
+            e = W.f * W.us[a] * W.vs[b] if how == "mass" else ufl.inner(ufl.grad(W.us[a]), ufl.grad(W.vs[b]))
+        else:
+            e = W.f * W.vs[b]
+        F = e * ufl.dx(domain=W.mesh) if F is None else F + e * ufl.dx(domain=W.mesh)
+    part.inc("states")
+    ukeys = [("arg", 1, 0), ("arg", 1, 1)]
+    vkeys = [("arg", 0, 0), ("arg", 0, 1)]
+    Zu = {k: [(0, 0)] for k in ukeys}
+    Zv = {k: [(0, 0)] for k in vkeys}
+    try:
+        Fuv = form_values(F, ebt)
+        Fu0 = form_values(F, ebt, dict(Zv))
+        F0v = form_values(F, ebt, dict(Zu))
+        F00 = form_values(F, ebt, {**Zu, **Zv})
+    except (Ambiguous, Undefined):
+        part.count("model_undefined")
+        return
+    a_ref = combine((1, Fuv), (-1, Fu0), (-1, F0v), (1, F00))
+    L_ref = combine((1, F0v), (-1, F00))
+    has_b = any(k == "B" for k, *_ in spec)
+    has_l = any(k == "L" for k, *_ in spec)
+
+    def run_op(opname, fn):
+        part.inc("transitions")
+        try:
+            return fn()
+        except BaseException as e:  # noqa: BLE001
+            if isinstance(e, (KeyboardInterrupt, SystemExit, MemoryError)):
+                raise
+            part.error(f"{opname}:{type(e).__name__}")
+            return None
+
+    def compare(opname, res, ref, **kw):
+        if res is None:
+            return
+        if not isinstance(res, ufl.Form):
+            if res == 0 or getattr(res, "empty", lambda: False)():
+                vals = {}
+            else:
+                part.count("non_form_result:" + opname)
+                return
+        else:
+            try:
+                vals = form_values(res, ebt, **kw)
+            except (Ambiguous, Undefined):
+                part.count("model_undefined")
+                return
+        part.inc("validated")
+        bad = same(vals, ref)
+        if bad:
+            part.violation(
+                f"{PID}:{opname}:{key0}",
+                f"{opname} of [{key0}] (MixedFunctionSpace parts) differs from the algebraic definition on {bad[0]}",
+                {"form": key0, "parts_spec": [list(t) for t in spec], "op": opname, "where": str(bad[0]), "ufl": M.show(bad[1]), "expected": M.show(bad[2]), "result": str(res)[:800]},
+            )
+        else:
+            part.count("ok:" + opname)
+
+    if has_b:
+        compare("lhs[parts]", run_op("lhs", lambda: ufl.lhs(F)), a_ref)
+        # action replaces the trial function of every part by the coefficient of THAT part
+        alias = {("arg", 1, p): ("coef", W.cs[p].count()) for p in (0, 1)}
+        if not has_l:
+            compare("action[parts]", run_op("action", lambda: ufl.action(F, W.cs)), form_values(F, ebt, key_alias=alias))
+    if has_l and has_b:
+        compare("rhs[parts]", run_op("rhs", lambda: ufl.rhs(F)), combine((-1, L_ref)))
+    if has_l and not has_b:
+        alias = {("arg", 0, p): ("coef", W.cs[p].count()) for p in (0, 1)}
+        compare("action1[parts]", run_op("action1", lambda: ufl.action(F, W.cs)), form_values(F, ebt, key_alias=alias))
+    part.inc("nontrivial")
+    part.outcome(("parts", has_b, has_l))
+
+
 def main(argv):
     run = Run(PID, argv)
     quick = not run.thorough()
     set_order(2)
     if run.args.replay:
         return replay(run)
-    items = []
+    items = parts_items()
     for kind in ("scalar", "vector"):
         W = World(kind)
         tn = sorted(set(terms(W, False)) | set(terms(W, True)))
@@ -300,7 +415,10 @@ def main(argv):
         ebt_r = {it: FS.envs_for(it, "triangle", 2, complex_mode=False, n=1) for it in (FS.CELL, FS.EXT, FS.INT)}
         ebt_c = {it: FS.envs_for(it, "triangle", 2, complex_mode=True, n=1, salt=5) for it in (FS.CELL, FS.EXT, FS.INT)}
         for item in chunk:
-            check_form(item, part, ebt_r, ebt_c)
+            if item[0] == "parts":
+                check_parts(item, part, ebt_r)
+            else:
+                check_form(item, part, ebt_r, ebt_c)
         return part.dict()
 
     for d in pmap(work, items, seed=run.seed):
@@ -316,6 +434,13 @@ def main(argv):
 def replay(run):
     with open(run.args.replay) as f:
         w = json.load(f)["witness"]
+    if "parts_spec" in w:
+        part = Part()
+        set_order(2)
+        ebt_r = {it: FS.envs_for(it, "triangle", 2, complex_mode=False, n=1) for it in (FS.CELL, FS.EXT, FS.INT)}
+        check_parts(("parts", tuple(tuple(t) for t in w["parts_spec"])), part, ebt_r)
+        run.merge(part.dict())
+        return run.finish()
     kind, name = w["form"].split(":", 1)
     spec = []
     for piece in name.split(" + "):
